@@ -3,8 +3,14 @@ use std::error::Error;
 use std::future::Future;
 use std::hash::{Hash, Hasher};
 use std::pin::Pin;
+#[cfg(not(nexosim_verif))]
 use std::sync::atomic::{AtomicBool, Ordering};
+#[cfg(nexosim_verif)]
+use crate::verif::sync::atomic::{AtomicBool, Ordering};
+#[cfg(not(nexosim_verif))]
 use std::sync::{Arc, Mutex};
+#[cfg(nexosim_verif)]
+use crate::verif::sync::{Arc, Mutex};
 use std::task::{Context, Poll};
 use std::time::Duration;
 use std::{fmt, ptr};
